@@ -455,7 +455,19 @@ class Exec:
         return Tup(self.ev(x, st) for x in e.elts)
 
     def ev_List(self, e, st):
-        return self.alloc_list(st, [self.ev(x, st) for x in e.elts])
+        items = []
+        for x in e.elts:
+            if isinstance(x, ast.Starred):          # [*items, more]: the elements of a concrete list / tuple spliced in
+                v = self.ev(x.value, st)
+                if isinstance(v, LRef):
+                    items.extend(st.heap[v.sid].items)
+                elif isinstance(v, (Tup, tuple)):
+                    items.extend(v)
+                else:
+                    raise Undecided("* of a sequence that is not concrete in a list display")
+            else:
+                items.append(self.ev(x, st))
+        return self.alloc_list(st, items)
 
     def ev_Dict(self, e, st):
         items = {}
